@@ -189,6 +189,7 @@ func c17Run(e *Env) {
 	nTasks := 1 + t.Choose(3)
 	e.EnableParkAll("task.op")
 	e.EnableParkAll("mux.ServeCOAP.betweenLocks")
+	e.EnableParkAll("auto.unlock") // yields inserted at build time after every non-deferred Unlock()/RUnlock() of router.go
 	r := mux.NewRouter()
 	r.SetErrorHandler(func(error) {})
 
@@ -280,29 +281,31 @@ func c17Run(e *Env) {
 			id := nextH
 			nextH++
 			handlerOwner[id] = pats[o.pat].text
-			if err := r.Handle(pats[o.pat].text, mkHandler(id)); err != nil {
-				e.Violate("C17.R0", "handle-refused-valid-pattern", "Handle(%q) failed: %v", pats[o.pat].text, err)
-				return
-			}
+			// the mutators run from their call to their unlock without a scheduling point, so the mutation takes
+			// effect at the call (the build-time yield after the unlock comes later): record the state first
 			s := cur()
 			ns := c17State{seq: tick(), routes: copyRoutes(s.routes), def: s.def}
 			ns.routes[pats[o.pat].text] = id
 			states = append(states, ns)
+			if err := r.Handle(pats[o.pat].text, mkHandler(id)); err != nil {
+				e.Violate("C17.R0", "handle-refused-valid-pattern", "Handle(%q) failed: %v", pats[o.pat].text, err)
+				return
+			}
 			e.Notef("task %d Handle(%q) -> h%d", ti, pats[o.pat].text, id)
 		case 2:
-			_ = r.HandleRemove(pats[o.pat].text)
 			s := cur()
 			ns := c17State{seq: tick(), routes: copyRoutes(s.routes), def: s.def}
 			delete(ns.routes, pats[o.pat].text)
 			states = append(states, ns)
+			_ = r.HandleRemove(pats[o.pat].text)
 			e.Notef("task %d HandleRemove(%q)", ti, pats[o.pat].text)
 		case 3:
 			id := nextH
 			nextH++
 			handlerOwner[id] = ""
-			r.DefaultHandle(mkHandler(id))
 			s := cur()
 			states = append(states, c17State{seq: tick(), routes: copyRoutes(s.routes), def: id})
+			r.DefaultHandle(mkHandler(id))
 			e.Notef("task %d DefaultHandle -> h%d", ti, id)
 		default:
 			path := paths[o.path]
@@ -338,7 +341,7 @@ func c17Run(e *Env) {
 		}
 		p := pk[e.Tape.Choose(len(pk))]
 		for _, q := range pk {
-			if q != p && q.Site == "mux.ServeCOAP.betweenLocks" {
+			if q != p && q.Site != "task.op" {
 				e.NonTrivial()
 				e.Probe("dispatch.overlapsAnotherOperation")
 			}
